@@ -1,7 +1,7 @@
 """C02 -- controlled operators act only where all control qubits are 1."""
 from lib import *
 import gen, opsmain
-from opexpr import popcount, act_on
+from opexpr import popcount, act_on, ASSEMBLY
 
 PROP = "C02"
 
@@ -9,7 +9,7 @@ PROP = "C02"
 def rand_product(rng, n, k):
     e = gen.random_gate(rng, n)
     for _ in range(k - 1):
-        e = (rng.choice(["mul", "mul", "mulassign", "append", "pushsingles", "pushfront", "mulsingles", "mulrefmut"]), e, gen.random_gate(rng, n))
+        e = (rng.choice(["mul", "mul", "mulassign", "append", "pushsingles", "pushfront", "mulsingles", "mulrefmut", "pushback", "wrapped"]), e, gen.random_gate(rng, n))
     return e
 
 
@@ -39,6 +39,33 @@ def cases(rng, tier):
         if rng.random() < 0.3:
             e = ("dgr", e)
         cs.append({"kind": "matrix", "n": n, "e": e})
+    # every way of assembling a product x a control that is accepted: the factors sit on the low qubits, the controls
+    # on the high ones (one mask, nested, before and after a dagger), so that the request is never refused
+    for _ in range(120 if tier == "quick" else 3000):
+        n = rng.choice([4, 5]); lo = rng.choice([2, 3])
+        how = rng.choice(ASSEMBLY)
+        k = rng.randint(2, 5)
+        cut = rng.randint(1, k - 1)
+        left = [gen.random_gate(rng, lo, allow_empty=False) for _ in range(cut)]
+        right = [gen.random_gate(rng, lo, allow_empty=False) for _ in range(k - cut)]
+        chain = lambda gs: gs[0] if len(gs) == 1 else ("mul", chain(gs[:-1]), gs[-1])
+        e = (how, chain(left), chain(right))
+        hi = [c for c in range(1, 1 << n) if not c & ((1 << lo) - 1)]
+        c1 = rng.choice(hi)
+        form = rng.random()
+        if form < 0.5:
+            e = ("c", c1, e)
+        elif form < 0.7:
+            e = ("dgr", ("c", c1, e))
+        elif form < 0.85:
+            e = ("c", c1, ("dgr", e))
+        else:
+            rest = [c for c in hi if not c & c1]
+            e = ("c", rng.choice(rest), ("c", c1, e)) if rest else ("c", c1, e)
+        if rng.random() < 0.5:
+            cs.append({"kind": "matrix", "n": n, "e": e})
+        else:
+            cs.append({"kind": "applyraw", "n": n, "raw": gen.random_state(rng, n), "e": e})
     # dense states on the register path
     for _ in range(60 if tier == "quick" else 1500):
         n = rng.randint(2, 5)
